@@ -2,6 +2,7 @@ from typing import Sequence, Any
 from sympy import Expr, integrate, simplify
 from symplyphysics import Vector, dot_vectors, vector_magnitude, vector_unit
 from ..fields.operators import curl_operator, divergence_operator
+from ..fields.scalar_field import ScalarField
 from ..fields.vector_field import VectorField
 from ..geometry.elements import parametrized_curve_element, parametrized_curve_element_magnitude, volume_element_magnitude
 from ..geometry.normals import parametrized_curve_normal, parametrized_surface_normal
@@ -88,10 +89,13 @@ def flux_across_surface_boundary(
     (parameter1, parameter1_from, parameter1_to) = parameter_and_limits1
     (parameter2, parameter2_from, parameter2_to) = parameter_and_limits2
     field_divergence = divergence_operator(field)
+    # divergence is a function of base scalars, it should be evaluated at the points of the surface
+    field_divergence_applied = ScalarField.from_expression(field_divergence,
+        field.coordinate_system).apply(surface)
     surface_vector = Vector(surface, field.coordinate_system)
     surface_element_vector = parametrized_surface_normal(surface_vector, parameter1, parameter2)
     surface_element_magnitude = vector_magnitude(surface_element_vector)
-    flux_value = integrate(field_divergence * surface_element_magnitude,
+    flux_value = integrate(field_divergence_applied * surface_element_magnitude,
         (parameter1, parameter1_from, parameter1_to), (parameter2, parameter2_from, parameter2_to))
     return simplify(flux_value)
 
